@@ -246,11 +246,25 @@ func severalConfigs(c *Case, st *Stats) string {
 	for i := 0; i < len(c.Path); i++ {
 		k += int(c.Path[i])
 	}
-	k %= 8
+	k %= 9
 	if k == 0 {
 		return ""
 	}
-	cfgs := configList(k)
+	var cfgs []jsonpath.Config
+	if k == 8 {
+		// one Config that also registers functions under names no path can spell (empty, with a
+		// blank, a dot, non-ASCII): such a Config is still a Config
+		odd := BuildConfig(nil, true, false)
+		id := func(v interface{}) (interface{}, error) { return v, nil }
+		for _, n := range []string{"", "a b", "f.1", "é", "()", "f1 "} {
+			odd.SetFilterFunction(n, id)
+		}
+		odd.SetAggregateFunction("", func(vs []interface{}) (interface{}, error) { return float64(len(vs)), nil })
+		odd.SetAggregateFunction("g 1", func(vs []interface{}) (interface{}, error) { return float64(len(vs)), nil })
+		cfgs = []jsonpath.Config{odd}
+	} else {
+		cfgs = configList(k)
+	}
 	f, err := jsonpath.Parse(c.Path, cfgs...)
 	noteParse(c.Path, true, true)
 	st.Eval(1)
